@@ -1,7 +1,8 @@
 (* C01 — every query cell gets one complete, ordered, tree-consistent assignment.
    Property theorems only. *)
 From Coq Require Import ZArith List Bool.
-From CTM Require Import Base.Sx Base.SortX Model.Tree Model.Election Proofs.ElectionP.
+From Coq Require Import Permutation.
+From CTM Require Import Base.Sx Base.SortX Model.Tree Model.Election Model.Gather Proofs.ElectionP Proofs.PipelineP.
 Import ListNotations.
 Open Scope Z_scope.
 
@@ -35,6 +36,31 @@ Theorem c01_total :
 Proof. exact routing_total. Qed.
 Print Assumptions c01_total.
 
+(* The mapping stage as a whole.  The query — cells with pairwise distinct ids — is cut into
+   consecutive chunks `parts` (ANY split: every chunk size and worker count), chunk i is mapped
+   by its own worker from the generator made of the seed it was handed, the per-chunk results
+   are gathered in ANY completion order sigma and re-ordered by cell id (re_order_blob).  Then
+   the stage returns exactly one record per query cell, in the query's order, and every record
+   is a root-to-leaf path of the taxonomy.  (That consecutive chunks of every size tile the
+   query is c05_chunks_cover; that seeds do not depend on the schedule is c04_seeds_fixed_at_dispatch;
+   completing the path at dropped / flattened levels is c17_backfilled_path.) *)
+Theorem c01_stage_one_record_per_cell :
+  forall (cell rng : Type)
+         (decide : rng -> option (nat * node) -> list node -> list cell -> list rec * rng),
+    (forall g p kids cs, (2 <= length kids)%nat -> length (fst (decide g p kids cs)) = length cs) ->
+    (forall g p kids cs, (2 <= length kids)%nat -> Forall (fun r => In (asg r) kids) (fst (decide g p kids cs))) ->
+    forall (mk_rng : Z -> rng) t, tree_ok t ->
+    forall (parts : list (list (Z * cell))) (seeds : list Z) (sigma : list nat),
+      NoDup (map fst (concat parts)) ->
+      Permutation sigma (seq 0 (length parts)) ->
+      exists final,
+        final_list (list rec) (chunk_records cell rng decide mk_rng t parts) (map fst (concat parts)) seeds sigma = Some final /\
+        map fst final = map fst (concat parts) /\
+        length final = length (concat parts) /\
+        Forall (fun r => path_ok t (snd r) = true) final.
+Proof. exact pipeline_one_record_per_cell. Qed.
+Print Assumptions c01_stage_one_record_per_cell.
+
 (* non-vacuity: a 3-level taxonomy with a single top node and a single-child chain *)
 Definition ex_tree : tree :=
   [ [(1, [10; 11])]; [(10, [100]); (11, [110; 111])]; [(100, []); (110, []); (111, [])] ].
@@ -50,3 +76,12 @@ Example c01_example :
   | _ => False
   end.
 Proof. vm_compute. split; reflexivity. Qed.
+
+(* the stage on the example: five cells in chunks of 2, 2, 1, completed in the order 2, 0, 1 *)
+Example c01_stage_example :
+  final_list (list rec) (chunk_records Z nat ex_decide (fun z => Z.to_nat z) ex_tree
+                           [[(50, 5); (60, 6)]; [(70, 7); (80, 8)]; [(90, 9)]])
+             [50; 60; 70; 80; 90] [3; 1; 4] [2; 0; 1]%nat
+  = Some (combine [50; 60; 70; 80; 90]
+            (match run_type_assignment Z nat ex_decide ex_tree [5; 6; 7; 8; 9] 0%nat with Ok (rows, _) => rows | _ => [] end)).
+Proof. vm_compute. reflexivity. Qed.
